@@ -48,6 +48,7 @@ type socket struct {
 	sendQLen   int
 	recvExpire time.Duration
 	recvq      chan *protocol.Message
+	sizeq      chan struct{}
 	ttl        int
 	sync.Mutex
 }
@@ -97,14 +98,24 @@ func (s *socket) RecvMsg() (*protocol.Message, error) {
 		tq = time.After(s.recvExpire)
 	}
 	recvq := s.recvq
+	sizeq := s.sizeq
 	s.Unlock()
-	select {
-	case <-s.closeq:
-		return nil, protocol.ErrClosed
-	case <-tq:
-		return nil, protocol.ErrRecvTimeout
-	case m := <-recvq:
-		return m, nil
+	for {
+		select {
+		case <-s.closeq:
+			return nil, protocol.ErrClosed
+		case <-tq:
+			return nil, protocol.ErrRecvTimeout
+		case <-sizeq:
+			// The queue was replaced while we were waiting;
+			// carry on with the new one (same deadline).
+			s.Lock()
+			recvq = s.recvq
+			sizeq = s.sizeq
+			s.Unlock()
+		case m := <-recvq:
+			return m, nil
+		}
 	}
 }
 
@@ -141,10 +152,14 @@ func (s *socket) SetOption(name string, value interface{}) error {
 	case protocol.OptionReadQLen:
 		if v, ok := value.(int); ok && v >= 0 {
 			newchan := make(chan *protocol.Message, v)
+			sizeq := make(chan struct{})
 			s.Lock()
 			s.recvQLen = v
 			s.recvq = newchan
+			sizeq, s.sizeq = s.sizeq, sizeq
 			s.Unlock()
+			// Wake anyone waiting on the old queue.
+			close(sizeq)
 
 			return nil
 		}
@@ -293,17 +308,29 @@ outer:
 			}
 		}
 		recvq := s.recvq
+		sizeq := s.sizeq
 		s.Unlock()
 		m.Free()
 
-		select {
-		case recvq <- userm:
-		case <-p.closeq:
-			userm.Free()
-			break outer
-		case <-s.closeq:
-			userm.Free()
-			break outer
+	deliver:
+		for {
+			select {
+			case recvq <- userm:
+				break deliver
+			case <-sizeq:
+				// Queue replaced while we were blocked on
+				// a full one: offer it to the new queue.
+				s.Lock()
+				recvq = s.recvq
+				sizeq = s.sizeq
+				s.Unlock()
+			case <-p.closeq:
+				userm.Free()
+				break outer
+			case <-s.closeq:
+				userm.Free()
+				break outer
+			}
 		}
 	}
 	p.close()
@@ -319,6 +346,7 @@ func NewProtocol() protocol.Protocol {
 		pipes:    make(map[uint32]*pipe),
 		closeq:   make(chan struct{}),
 		recvq:    make(chan *protocol.Message, defaultQLen),
+		sizeq:    make(chan struct{}),
 		sendQLen: defaultQLen,
 		recvQLen: defaultQLen,
 		ttl:      8,
